@@ -255,6 +255,8 @@ func runC03(r *Run) {
 	positions := []pos{
 		{"v-if", "PIf", `<p data-m="1" v-if="v">x</p>`, has(`data-m="1"`)},
 		{"v-if-not", "PNotIf", `<p data-m="1" v-if="!v">x</p>`, has(`data-m="1"`)},
+		{"v-if-not-paren", "PNotIf", `<p data-m="1" v-if="!(v)">x</p>`, has(`data-m="1"`)},
+		{"v-else-if-not-paren", "PNotIf", `<p v-if="no">a</p><p data-m="1" v-else-if="!(v)">x</p>`, has(`data-m="1"`)},
 		{"v-else-if", "PElseIf", `<p v-if="no">a</p><p data-m="1" v-else-if="v">x</p>`, has(`data-m="1"`)},
 		{"v-show", "PShow", `<p data-m="1" v-show="v">x</p>`, visible},
 		{"bound-attr", "PBoundAttr", `<p data-m="1" :data-on="v">x</p>`, has(`data-on=`)},
@@ -284,7 +286,7 @@ func runC03(r *Run) {
 			} else {
 				obs = B(p.observe(out))
 				want := documentedTruthy(v)
-				if p.name == "v-if-not" {
+				if p.coq == "PNotIf" {
 					want = !want
 				}
 				if p.observe(out) != want {
